@@ -221,6 +221,7 @@ def run(res: Results, idx: Index, tier: str) -> None:
     res.rule("R-C09c", "no x64-sensitive JAX call runs outside the scoped x64 flag in functions that scope it", floor=20)
     rule_c(res, idx)
 
+    rule_e(res, idx)
     from .c03 import inherited_settings
     res.rule("R-C09d", "nested Loop / If / function scopes inherit enable_double_precision from an attribute that exists", floor=1)
     for site, key, status, detail, func, setting in inherited_settings(idx):
@@ -390,3 +391,38 @@ def _next_stmt_is_restoring_try(u: ast.AST, tries, restores) -> bool:
             if i + 1 < len(blk) and blk[i + 1] in tries and any(x in restores for x in _calls(blk[i + 1].finalbody)):
                 return True
     return False
+
+
+# ---------------------------------------------------------------------------------------------- R-C09e
+def rule_e(res: Results, idx: Index) -> None:
+    """jax.numpy-level plugins receive operands of different dtypes.  NumPy's promotion lattice sends (int32, float32)
+    to float64 where JAX's sends it to float32; a lowering / abstract_eval that promotes the operand dtypes with
+    `np.promote_types` / `np.result_type` and does not clamp the result therefore casts to DOUBLE inside a single-precision
+    export (numpy_dtype_to_ir_with_float_policy keeps float64 as DOUBLE)."""
+    res.rule("R-C09e", "jax.numpy-level plugins do not promote operand dtypes with NumPy's lattice without clamping float64 in single precision", floor=5)
+    n = 0
+    for m in idx.product_modules():
+        if "/plugins/jax/numpy/" not in m.rel:
+            continue
+        for fi in m.funcs.values():
+            du = defuse(fi.node)
+            for c in walk_no_nested(fi.node):
+                if not (isinstance(c, ast.Call) and (call_name(c) or "") in ("np.promote_types", "np.result_type", "numpy.promote_types", "numpy.result_type") and len(c.args) >= 2):
+                    continue
+                a0, a1 = names_in(c.args[0]), names_in(c.args[1])
+                if not a0 or not a1 or a0 == a1:
+                    continue
+                n += 1
+                stem = m.rel.rsplit("/", 1)[-1][:-3]
+                key = f"{m.rel}::{fi.qualname}::numpy-promotion::{src(c, 40)}"
+                site = f"{m.rel}:{c.lineno}"
+                # a clamp: the function compares a dtype with float64 and falls back to float32 / the default float
+                clamp = any(isinstance(x, ast.Compare) and "float64" in src(x, 200) for x in walk_no_nested(fi.node)) and any(
+                    ("float32" in src(x, 200) or "_default_float" in src(x, 200) or "enable_double" in src(x, 200)) for x in walk_no_nested(fi.node) if isinstance(x, (ast.Assign, ast.IfExp, ast.Return)))
+                if clamp:
+                    res.ok("R-C09e", site, key, "the function clamps a float64 promotion back to single precision", fi.qualname)
+                elif fi.name == "abstract_eval":
+                    res.unresolved("R-C09e", site, key, "NumPy promotion inside abstract_eval: whether the float64 survives depends on how the aval is constructed and on the lowering (confirmed harmless for add / maximum / minimum / where)", fi.qualname)
+                else:
+                    res.violation("R-C09e", site, key, f"jnp.{stem}: `{src(c, 50)}` follows NumPy's lattice (int32 with float32 -> float64, JAX: float32) and nothing clamps it: with enable_double_precision=False the export contains DOUBLE casts / tensors for an int array combined with a float32 array", fi.qualname)
+    res.analysed["numpy_promotion_sites"] = n
